@@ -96,9 +96,9 @@ pub fn hostile_queue() {
     let mut retired: std::collections::BTreeMap<u16, Sub> = std::collections::BTreeMap::new();
     // Presenting a token that is not outstanding is only meaningful for a caller with a fixed
     // token-to-buffer mapping, which needs one descriptor per chain (otherwise the token may name
-    // the middle of somebody else's chain and the caller's buffers cannot match): indirect
-    // queues, or runs that only submit single buffers.
-    let one_desc_chains = c.indirect || flip(1, 3);
+    // the middle of somebody else's chain and the caller's buffers cannot match): runs that
+    // only submit single buffers (an indirect queue may still publish short chains directly).
+    let one_desc_chains = flip(1, 3);
     for _ in 0..(10 + choose(120)) {
         if violated() {
             break;
@@ -107,7 +107,7 @@ pub fn hostile_queue() {
             0 | 1 => {
                 let n_in = choose(3) as usize;
                 let n_out = if n_in == 0 { 1 + choose(2) as usize } else { choose(3) as usize };
-                let (n_in, n_out) = if one_desc_chains && !c.indirect { if n_in > 0 { (1, 0) } else { (0, 1) } } else { (n_in, n_out) };
+                let (n_in, n_out) = if one_desc_chains { if n_in > 0 { (1, 0) } else { (0, 1) } } else { (n_in, n_out) };
                 let ins: Vec<Box<[u8]>> = (0..n_in).map(|_| vec![0x11u8; 1 + choose(40) as usize].into_boxed_slice()).collect();
                 let mut outs: Vec<Box<[u8]>> = (0..n_out).map(|_| vec![0x22u8; 1 + choose(40) as usize].into_boxed_slice()).collect();
                 let r = guarded(|| {
